@@ -46,11 +46,24 @@ def classify(prog):
 
 
 def check_one(prog):
+    """The post-condition is evaluated for create_from(program) with its defaults and, when the program has evidence,
+    also with propagate_evidence=True (the default of the problog command line)."""
     sem = pw.semantics(prog)
     if sem["status"] != "ok":
         return dict(skip=True)
     src = progs.render(prog)
-    st, res = evaluate_src(src)
+    out = _judge(prog, sem, src, *evaluate_src(src))
+    if any(s[0] == "evidence" for s in prog):
+        out2 = _judge(prog, sem, src, *evaluate_src(src, ground_kwargs=dict(propagate_evidence=True)))
+        seen = set(out["violations"])
+        for name, text in out2["violations"]:
+            if (name, text) not in seen:
+                out["violations"].append((name, "[propagate_evidence=True] " + text))
+        out["nontrivial"] = out["nontrivial"] or out2["nontrivial"]
+    return out
+
+
+def _judge(prog, sem, src, st, res):
     out = dict(src=src, outcome=(st, res if st == "exc" else sorted(res.items())), classes=sorted(classify(prog)),
                nontrivial=False, violations=[])
     must_reject = sem["undefined"]
@@ -65,8 +78,11 @@ def check_one(prog):
     if must_reject:
         out["nontrivial"] = True
         if st == "ok":
-            viol("negative-cycle-answered", "a world has a three-valued well-founded model on a query/evidence atom "
-                                            "but inference answered %s" % sorted(res.items()))
+            # known finding, decided on the ground program: an atom of the cycle through negation also lies on a
+            # positive cycle (the engine loses such a cycle); any other answered negative cycle is reported
+            viol("negative-cycle-answered" + (":through-positive-cycle" if sem["negcycle_mixed"] else ""),
+                 "a world has a three-valued well-founded model on a query/evidence atom but inference answered %s"
+                 % sorted(res.items()))
         elif "GroundingError" not in res and "NegativeCycle" not in res and "problog:" not in res:
             viol("wrong-error", res)
         return out
